@@ -124,8 +124,14 @@ DecodeWithPool(b, hd, pool) ==
                        /\ BVal(sg.dlN) % 2 = 0
                        /\ BVal(sg.dsN) + BVal(sg.dlN) <= nwords
                        /\ Le(sg.dlN, sg.l)
+        \* the table is consistent with itself: no two (non-empty) segments claim the same memory word
+        End9(k) == Add(Ext(Seg(k).s, 9), Ext(Seg(k).l, 9))
+        NonEmpty(k) == Seg(k).l # Zeros(8)
+        Apart(k1, k2) == Le(End9(k1), Ext(Seg(k2).s, 9)) \/ Le(End9(k2), Ext(Seg(k1).s, 9))
+        Overlapping == \E k1, k2 \in 1..hd.count : k1 < k2 /\ NonEmpty(k1) /\ NonEmpty(k2) /\ ~Apart(k1, k2)
     IN IF Len(pool) % wb # 0 THEN Bad
        ELSE IF \E k \in 1..hd.count : ~SegOK(k) THEN Bad
+       ELSE IF Overlapping THEN Bad
        ELSE LET Cells == UNION {{<<k, i>> : i \in 0..(BVal(Seg(k).dlN) - 1)} : k \in 1..hd.count}
                 AddrOf(c) == AddSmall(Ext(Seg(c[1]).s, 9), c[2])
                 Raw(c) == Take(pool, (BVal(Seg(c[1]).dsN) + c[2]) * wb + 1, wb)
